@@ -549,3 +549,149 @@ FIXED_MALFORMED = [
     "(declare-fun x () (_ BitVec 0))", "(declare-fun x () (_ BitVec a))", "(declare-fun x () (_ FloatingPoint 8 24))", "(declare-fun x () (Array Int))",
     "(declare-fun x () (Array Int Int Int))", "(declare-fun x () (Int))", "(declare-fun x (", "(maximize x)", "(assert-soft true)",
 ]
+
+
+# ---------------------------------------------------------------------- stateful command sequences
+# A tiny pool of identifiers reused for everything (declarations inside push/pop levels, 0-ary and
+# unary definitions, let and quantifier binders), so that the per-name binding stacks of the reader
+# get deep and every transition declare / pop / re-declare / define / use is taken.  The sequences
+# are LEGAL under SMT-LIB scoping (a name is declared or defined only when it is not visible; only
+# visible names are used): the strict reference reader decides what they mean.
+ST_SORT = {"c": INT, "y": INT, "p": BOOL, "d": INT}          # d is always a unary Int function
+
+
+class StatefulGen(object):
+    def __init__(self, rnd):
+        self.r = rnd
+
+    def visible(self):
+        out = {}
+        for lvl in self.levels:
+            out.update(lvl)
+        return out
+
+    def int_term(self, depth=2, local=()):
+        r, vis = self.r, self.visible()
+        leaves = [n for n in ("c", "y") if n in vis or n in local] + [str(r.randint(0, 5))]
+        if depth <= 0:
+            return r.choice(leaves)
+        k = r.random()
+        if k < 0.25:
+            return r.choice(leaves)
+        if k < 0.5:
+            return "(+ %s %s)" % (self.int_term(depth - 1, local), self.int_term(depth - 1, local))
+        if k < 0.6 and "d" in vis:
+            return "(d %s)" % self.int_term(depth - 1, local)
+        if k < 0.75:
+            v = r.choice(["c", "y", "d"])            # a let variable named like a global
+            return "(let ((%s %s)) %s)" % (v, self.int_term(depth - 1, local), self.int_term(depth - 1, tuple(local) + ((v,) if v != "d" else ())))
+        if k < 0.85:
+            return "(ite %s %s %s)" % (self.bool_term(depth - 1, local), self.int_term(depth - 1, local), self.int_term(depth - 1, local))
+        return "(* 2 %s)" % self.int_term(depth - 1, local)
+
+    def bool_term(self, depth=2, local=()):
+        r, vis = self.r, self.visible()
+        if depth <= 0 or r.random() < 0.2:
+            return "p" if "p" in vis and r.random() < 0.6 else r.choice(["true", "false"])
+        k = r.random()
+        if k < 0.45:
+            return "(%s %s %s)" % (r.choice(["=", "<", "<=", ">"]), self.int_term(depth - 1, local), self.int_term(depth - 1, local))
+        if k < 0.6:
+            return "(and %s %s)" % (self.bool_term(depth - 1, local), self.bool_term(depth - 1, local))
+        if k < 0.7:
+            return "(not %s)" % self.bool_term(depth - 1, local)
+        if k < 0.85:
+            v = r.choice(["c", "y"])                 # a quantified variable named like a global
+            return "(%s ((%s Int)) %s)" % (r.choice(["forall", "exists"]), v, self.bool_term(depth - 1, tuple(local) + (v,)))
+        return "(=> %s %s)" % (self.bool_term(depth - 1, local), self.bool_term(depth - 1, local))
+
+    def use(self):
+        r = self.r
+        if r.random() < 0.8:
+            return "(assert %s)" % self.bool_term(2)
+        return "(get-value (%s))" % self.int_term(1)
+
+    def introduce(self, name, how):
+        """declare or define `name` in the current level; returns the command text"""
+        r = self.r
+        top = self.levels[-1]
+        if name == "d":
+            if how == "declare":
+                top[name] = "fun"
+                return "(declare-fun d (Int) Int)"
+            par = r.choice(["c", "y", "x"])           # a parameter named like a global
+            body = self.int_term(1, (par,))
+            top[name] = "fun"
+            return "(define-fun d ((%s Int)) Int %s)" % (par, body)
+        s = ST_SORT[name]
+        if how == "declare":
+            top[name] = "const"
+            return r.choice(["(declare-const %s %s)", "(declare-fun %s () %s)"]) % (name, s)
+        body = self.bool_term(1) if s == BOOL else self.int_term(1)
+        top[name] = "const"
+        return "(define-fun %s () %s %s)" % (name, s, body)
+
+    def script(self, maxlen=12):
+        r = self.r
+        self.levels = [{}]
+        out = []
+        n = r.randint(5, maxlen)
+        while len(out) < n:
+            vis = self.visible()
+            k = r.random()
+            free = [x for x in ST_SORT if x not in vis]
+            if k < 0.16 and len(self.levels) < 4:
+                m = r.choice([1, 1, 2])
+                out.append("(push %d)" % m if r.random() < 0.8 or m > 1 else "(push)")
+                self.levels += [{} for _ in range(m)]
+            elif k < 0.34 and len(self.levels) > 1:
+                m = r.randint(1, len(self.levels) - 1)
+                out.append("(pop %d)" % m)
+                del self.levels[-m:]
+            elif k < 0.62 and free:
+                out.append(self.introduce(r.choice(free), r.choice(["declare", "declare", "define"])))
+            elif k < 0.72 and free:
+                out.append(self.introduce(r.choice(free), "define"))
+            else:
+                out.append(self.use())
+        out.append(self.use())
+        return " ".join(out)
+
+
+def stateful_directed(rnd):
+    """The transitions named in DESIGN: (tag, text)."""
+    r = rnd
+    a, b = r.sample([1, 2, 3, 5, 7], 2)
+    out = []
+    decl = lambda n: "(declare-const %s Int)" % n
+    lvl = lambda n: "(push 1)%s(assert (> %s %d))(pop 1)" % (decl(n), n, a)
+    use = "(declare-const y Int)(assert (= y (+ c 1)))(assert (let ((y c)) (> y %d)))(get-value (c))" % a
+    for depth in (1, 2, 3):
+        out.append(("declare-pop-x%d-define-use" % depth, lvl("c") * depth + "(define-fun c () Int %d)" % b + use))
+        out.append(("declare-pop-x%d-define-unary-use" % depth,
+                    "".join("(push 1)(declare-fun d (Int) Int)(assert (> (d %d) 0))(pop 1)" % a for _ in range(depth))
+                    + "(define-fun d ((c Int)) Int (+ c %d))(declare-const y Int)(assert (= y (d %d)))" % (b, a)))
+        out.append(("declare-pop-x%d-redeclare-use" % depth, lvl("c") * depth + decl("c") + "(assert (> c %d))" % b))
+    out.append(("declare-two-levels-pop2-define-use",
+                "(push 1)" + decl("c") + "(push 1)(declare-fun d (Int) Int)(assert (> (d c) 0))(pop 2)"
+                "(define-fun c () Int %d)(define-fun d ((y Int)) Int (* y c))(assert (= (d %d) %d))" % (a, b, a * b)))
+    out.append(("push2-declare-pop2-twice-define-use",
+                "(push 2)" + decl("c") + "(pop 2)(push 2)" + decl("c") + "(pop 1)(pop 1)(define-fun c () Int %d)(assert (= c %d))" % (a, a)))
+    out.append(("define-push-declare-other-pop-use",
+                "(define-fun c () Int %d)(push 1)(declare-const y Int)(assert (= y c))(pop 1)(assert (= c %d))" % (a, a)))
+    out.append(("define-in-level-pop-declare-use",
+                "(push 1)(define-fun c () Int %d)(assert (= c %d))(pop 1)" % (a, a) + decl("c") + "(assert (= c %d))" % b))
+    out.append(("define-in-level-pop-x2-declare-use",
+                ("(push 1)(define-fun c () Int %d)(pop 1)" % a) * 2 + decl("c") + "(assert (= c %d))" % b))
+    out.append(("define-body-mentions-later-redeclared",
+                "(push 1)" + decl("c") + "(define-fun d ((y Int)) Int (+ y c))(assert (= (d 1) %d))(pop 1)" % a
+                + "(define-fun c () Int %d)(define-fun d ((y Int)) Int (* y c))(assert (= (d 2) %d))" % (b, 2 * b)))
+    out.append(("declare-pop-define-pop-define-use",
+                lvl("c") + "(push 1)(define-fun c () Int %d)(pop 1)" % a + lvl("c") + "(define-fun c () Int %d)(assert (= c %d))" % (b, b)))
+    out.append(("define-sort-after-popped-declarations",
+                "(push 1)(declare-sort S 0)(declare-const c S)(pop 1)(push 1)(declare-sort S 0)(pop 1)"
+                "(define-sort S () Int)(declare-const c S)(assert (> c %d))" % a))
+    out.append(("binders-over-stale-names",
+                lvl("c") * 2 + "(define-fun c () Int %d)(assert (forall ((c Int)) (exists ((y Int)) (= y (+ c 1)))))"
+                "(assert (let ((c (+ c 1))) (= c %d)))" % (a, a + 1)))
+    return out
